@@ -13,6 +13,21 @@ LAB = ("SchedLab (stub S6): the real Scheduler and in-memory SQLite backend run 
        "early, and completion-arrives-during-an-event modes) are solver choice variables. ")
 
 CLAIMED = {
+    "C03": dict(
+        text="Every history (solver choice variables) of: run / edit inner, mid or outer task (new version) / revert / transfer all records to a fresh repository, on four workflow shapes (chain, middle task without provenance, a leaf shared by two parents, a non-leaf call shared by two shallow parents), executed with the real scheduler and file-backed SQLite under the controlled executor with a solver-chosen completion order; every task stamps its version into the result, so a stale shallow replay is visible in the returned value.",
+        note="<= 4-5 steps. One listed known finding (imported call nodes lack subtree rows) is assumed away and witnessed; one defect (subtree tasks of deduplicated jobs) was fixed. Interrupted recordings are not covered (cf. C22).",
+        design="3/C03",
+        technique=TECH + "; edit/run/transfer histories as solver choice variables, executed natively on the real backend"),
+    "C04": dict(
+        text="The real Scheduler._get_cache (validity branch) is run on cached results that contain one external value of a solver-chosen class (File, ContentFile, IFile, Dir, ContentDir, FileSet) in a solver-chosen position (bare, list, dict, nested, positional/keyword argument of a returned task expression) after a solver-chosen file-system change, and must report a miss - without raising - exactly when an independent observation of the file system says the value changed; whole re-executions through the real scheduler must re-run the producing task iff its output became invalid and return a result reflecting the current state.",
+        note="Local temp directory; Handle validity is checked under C25 on the same path; one listed known finding (ContentDir hashes members by stat) assumed away and witnessed; one defect (ContentFile on a missing path raised) fixed.",
+        design="3/C04-C30",
+        technique=TECH + "; value class / position / file-system change as solver choice variables, executed natively; OS-level oracle"),
+    "C05": dict(
+        text="Histories of up to 3 calls of the same task and arguments under solver-chosen contexts (none/A/B), with three ways of depending on the context (nested child, defaulted get_context argument, defaulted argument that is a task call), arranged in parallel, sequentially in one execution or in successive executions, with full or shallow validity and with or without an execution-level context, run on the real scheduler and SQLite backend: every call must return the value of its own context.",
+        note="One listed known finding (a context-free call after a finished context-bearing call reuses its result) is assumed away exactly and witnessed.",
+        design="3/C05",
+        technique=TECH + "; call histories as solver choice variables, executed natively on the real scheduler/backend"),
     "C06": dict(
         text="%sAsserted per run: every (task, eval hash, context hash) reaches the executor at most once unless opted out, twins get the same result/error, equal expressions under one parent create one job, the outcome is the prescribed one; with the backend cache and with cache=False." % LAB,
         note="Templates: main -> <= 3-4 branches mid -> leaf with duplicates, shared non-leaf calls, failing/caught leaves, a leaf demanding the whole limit, optional catch_all / unknown-executor branch. Real thread/process executors and prov=False jobs are outside.",
@@ -33,6 +48,11 @@ CLAIMED = {
         note="Same templates as C06/C08; every task function terminates, demand <= limit.",
         design="3/C08-C09-C06-C07-C12",
         technique=TECH + "; scheduler run natively under a controlled executor/queue with symbolic limits and solver-chosen schedules"),
+    "C11": dict(
+        text="ThreadLab (stub S7): the real, unmodified JobArrayer methods run in two real threads (adder, monitor) that are serialised at every source line of job_array.py and at every bytecode instruction of the num_pending updates; the interleaving (bounded pre-emptions) is a vector of solver choice variables; asserted: every job handed off exactly once in a single-description batch of legal size, the monitor never fails, num_pending equals the number of jobs not yet handed off once activity stops.",
+        note="Cooperative Lock/Event stand-ins, fake clock, JobArrayer.start neutralised; <= 4-5 jobs, <= 2-3 pre-emptions; one adder thread.",
+        design="3/C11",
+        technique=TECH + "; thread interleavings of the real code (line/opcode granularity via sys.settrace gating) as solver choice variables"),
     "C12": dict(
         text="%sAsserted: an uncaught failure makes run raise the same exception type and message, the failing job and each ancestor are recorded FAILED with an ErrorValue, a second execution submits the failed call again; plus solver-chosen histories of executions of one call whose body succeeds/fails with the cache on/off, and the real _get_cache on solver-chosen (result kind, cache type) pairs." % LAB,
         note="Errors: an ordinary exception and one carrying an unpicklable attribute; <= 3-4 executions per history.",
@@ -128,6 +148,11 @@ CLAIMED = {
         note="Strings <= 4 (quick) / prefixes up to 9 chars (thorough); <= 3-4 lines; local paths only; the script is not executed.",
         design="3/C29",
         technique=TECH + "; symbolic command strings partitioned by length/prefix; line and shape menus as solver choice variables"),
+    "C30": dict(
+        text="Sequences (solver choice variables) of write / append / remove / touch / same-size-same-mtime rewrite / copy / recreate / replace-directory-by-file operations on a real temporary directory; after every step, for recorded File, ContentFile, IFile, Dir, ContentDir, IDir and FileSet values: hashing never raises and is deterministic, is_valid() equals an independent OS-level observation (stat for stat-hashed, bytes for content-hashed, always for immutable), and the value used for the write carries the fresh hash.",
+        note="Local POSIX file system only; <= 3-4 operations; ContentDir finding listed (hashes members by stat); ContentFile missing-path defect fixed.",
+        design="3/C04-C30",
+        technique=TECH + "; file-system operation sequences as solver choice variables, executed natively; OS-level oracle"),
     "C33": dict(
         text="The real CallGraphQuery.filter_job_statuses / filter_execution_statuses / build (joins and status terms) are run on "
              "a FakeSession that evaluates the SQLAlchemy clause objects they assemble, with SQL three-valued logic, over a "
